@@ -46,6 +46,12 @@ except ImportError:
 
 MISTAKES_RE = re.compile(r"&amp(?:%3B|;)", re.I)
 
+# NOTE: the escape of an unreserved character (letters, digits, "-", ".",
+# "_" and "~") is just another spelling of the character
+UNRESERVED_ESCAPES_RE = re.compile(
+    r"%(?:3[0-9]|4[1-9A-F]|5[0-9AF]|6[1-9A-F]|7[0-9AE]|2[DE])", re.I
+)
+
 # NOTE: one of the kwargs below is not so aptly named quote...
 unshadowed_quote = quote
 
@@ -123,8 +129,17 @@ def decode_punycode_hostname(hostname, as_parts=False):
     return ".".join(parts)
 
 
+def _unquote_unreserved_match(match):
+    return chr(int(match.group(0)[1:], 16))
+
+
+def unquote_unreserved(string):
+    return UNRESERVED_ESCAPES_RE.sub(_unquote_unreserved_match, string)
+
+
 def fix_common_query_mistakes(query):
-    return re.sub(MISTAKES_RE, "&", query)
+    # NOTE: "&%61mp;" is "&amp;"
+    return re.sub(MISTAKES_RE, "&", unquote_unreserved(query))
 
 
 def safe_parse_qs(query):
